@@ -893,7 +893,14 @@ func run(c Case) outcome {
 			if t.Month() == 2 && t.Day() == 29 {
 				out.labels["anchor:feb-29"] = true
 			}
-			t = env.sc.VerifNextTick(t)
+			// every minute is examined, in order, however late the daemon is: the
+			// tick after minute M is M+1 (the daemon catches up minute by minute)
+			nt := env.sc.VerifNextTick(t)
+			if !nt.Equal(t.Add(time.Minute)) {
+				out.msg = fmt.Sprintf("after the tick for %s (wall clock %s) the daemon's next tick is %s: the minutes in between are never examined, whatever is scheduled in them is not started", t.Format("2006-01-02 15:04"), wall.Format("2006-01-02 15:04:05"), nt.Format("2006-01-02 15:04"))
+				return out
+			}
+			t = nt
 			tickIdx++
 		}
 	}
